@@ -8,24 +8,32 @@ Case = the Lean `Attrs.C03.Case`:
     subclass and the foreign operand's class define under `__eq__` / `__ne__`,
   * the history of the operands before they are compared (hash() taken and cached, fields re-assigned),
   * what the metaclass of all classes involved answers for `==`/`!=` between class objects,
+  * a fault per field for the FIRST of two rounds (its == raises / its eq key function raises): every case is
+    observed twice on the same pair in the same operand order -- with the faults active, then with all gone --
+    and what the comparisons left behind (thread-local state of the attr modules, the operands) is observed,
 plus a harness-only `cfg` that says how those facts are realised (api, slots, frozen, class-level
 eq/order/cmp spelling, inherited split, builtin / mixin / exception root, attrs base with generated or
 hand-written methods, kind of subclass / foreign operand, hash= / unsafe_hash= / cache_hash=, payloads of
 builtin bases, decoy classes) and per-field harness-only keys (`neRaw`, `neKeyed`: what `!=` between the two
-values answers -- independent of `==`).  `_finish` derives the facts from `cfg`; the model reads only facts.
+values answers -- independent of `==`; `excKind`: which exception a fault raises, incl. a BaseException-only one;
+`unhashable`: the values and their key results have `__hash__ = None`; `reprEq`: the two values' reprs are equal
+-- independent of `==`; any repr() of a value shows in the trace).  `_finish` derives the facts from `cfg`; the model reads only facts.
 """
 from __future__ import annotations
 
 import itertools
 import json
+import sys
+import threading
 
 import attr
 import attrs
 
 ID = "C03"
-RULE = ("cases = (per-field cmp/eq/order argument (order: unset/True/False/key function of its own) x hash argument x "
+RULE = ("two rounds per case on the same operands (faults active / faults gone) + residue check; cases = (per-field cmp/eq/order argument (order: unset/True/False/key function of its own) x hash argument x "
         "scripted outcome of raw, eq-keyed and order-keyed == (and, independently, of !=) x same-object flag x "
-        "equal/different hash codes) x right-operand kind x metaclass (plain type, or one whose __eq__/__ne__/both "
+        "equal/different hash codes x hashable/unhashable values and key results x equal/different reprs x first-round "
+        "fault (== raises / eq key function raises; 5 exception types incl. BaseException-only)) x right-operand kind x metaclass (plain type, or one whose __eq__/__ne__/both "
         "answer scripted outcomes -- e.g. equate all classes of the case, or make a class unequal to itself) x class facts (class-level "
         "eq/cmp, auto_detect, hand-written __eq__/__ne__ in the class body, ancestors: attrs base with generated or "
         "hand-written methods over object / list / dict / str / float / int / tuple / exception / plain mixin with "
@@ -47,6 +55,11 @@ ASSUMPTIONS = [
     "the metaclass and the per-field order= argument are part of the Lean case but model and spec never read them "
     "(theorems C03_class_identity_not_equality, C03_order_key_irrelevant); a metaclass __eq__/__ne__ call or an order-key "
     "comparison during C.__eq__/C.__ne__ shows up in the trace, which the spec rejects",
+    "faults are scripted on the harness's own value objects and switched off between the two rounds; the model's first "
+    "round evaluates the and-chain with faults (chainF), its second round without; exceptions are canonicalised to `exc` "
+    "whatever their type (the type is harness-only variation)",
+    "residue = new non-empty entries / changed values in threading.local objects found in the attr and attrs modules "
+    "(this thread), and changed instance dict / slot contents of the two operands; the model says: never anything",
     "classes for which attrs does not generate equality (eq=False, auto_detect with own methods, auto_exc exceptions) "
     "are outside the property and not generated",
 ]
@@ -81,22 +94,43 @@ MK = {"T": True, "F": False, "truthy": TRUTHY, "falsy": FALSY}
 LOG: list = []
 
 
-class K:
-    """keyed value: == and != answer independently scripted outcomes; hash code scripted"""
+class UserErr(Exception):
+    pass
 
-    def __init__(self, name, keyed, ne, h):
-        self.name, self.keyed, self.ne, self.h = name, keyed, ne, h
+
+class BaseOnly(BaseException):
+    """not an Exception: passes through every `except Exception`"""
+
+
+EXC_KINDS = {"user": UserErr, "base": BaseOnly, "attr": AttributeError, "type": TypeError, "recursion": RecursionError}
+
+
+class K:
+    """keyed value: == and != answer independently scripted outcomes; hash code and repr scripted too;
+    `fault` (an exception class) makes the next == / != raise"""
+    fault = None
+
+    def __init__(self, name, keyed, ne, h, rp="r"):
+        self.name, self.keyed, self.ne, self.h, self.rp = name, keyed, ne, h, rp
 
     def __eq__(self, other):
         LOG.append(self.name + ":key")
+        if self.fault is not None:
+            raise self.fault()
         return MK[self.keyed]
 
     def __ne__(self, other):
         LOG.append(self.name + ":key!=")
+        if self.fault is not None:
+            raise self.fault()
         return MK[self.ne]
 
     def __hash__(self):
         return self.h
+
+    def __repr__(self):
+        LOG.append(self.name + ":key:repr")
+        return self.rp
 
 
 class KO(K):
@@ -104,36 +138,72 @@ class KO(K):
 
     def __eq__(self, other):
         LOG.append(self.name + ":okey")
+        if self.fault is not None:
+            raise self.fault()
         return MK[self.keyed]
 
     def __ne__(self, other):
         LOG.append(self.name + ":okey!=")
+        if self.fault is not None:
+            raise self.fault()
         return MK[self.ne]
 
     __hash__ = K.__hash__
 
+    def __repr__(self):
+        LOG.append(self.name + ":okey:repr")
+        return self.rp
+
 
 class S:
     """scripted raw value"""
+    fault = None
+    kfault = None       # makes the eq key function raise
+    KCLS, KOCLS = K, KO
 
-    def __init__(self, name, raw, keyed, ne_raw="T", ne_keyed="T", h=0, order_keyed="T"):
-        self.name, self.raw, self.ne, self.h = name, raw, ne_raw, h
-        self.k = K(name, keyed, ne_keyed, h + 7)
-        self.ok = KO(name, order_keyed, ne_keyed, h + 11)
+    def __init__(self, name, raw, keyed, ne_raw="T", ne_keyed="T", h=0, order_keyed="T", rp="r"):
+        self.name, self.raw, self.ne, self.h, self.rp = name, raw, ne_raw, h, rp
+        self.k = self.KCLS(name, keyed, ne_keyed, h + 7, rp)
+        self.ok = self.KOCLS(name, order_keyed, ne_keyed, h + 11, rp)
 
     def __eq__(self, other):
         LOG.append(self.name)
+        if self.fault is not None:
+            raise self.fault()
         return MK[self.raw]
 
     def __ne__(self, other):
         LOG.append(self.name + "!=")
+        if self.fault is not None:
+            raise self.fault()
         return MK[self.ne]
 
     def __hash__(self):
         return self.h
 
+    def __repr__(self):
+        LOG.append(self.name + ":repr")
+        return self.rp
+
+
+class KU(K):
+    """an unhashable key result (a list, a dict, an ==-only class)"""
+    __hash__ = None
+
+
+class KOU(KO):
+    __hash__ = None
+
+
+class SU(S):
+    """an unhashable value whose key results are unhashable too"""
+    __hash__ = None
+    KCLS, KOCLS = KU, KOU
+
 
 def key_fn(v):
+    if v.kfault is not None:
+        raise v.kfault()
     return v.k
 
 
@@ -158,7 +228,7 @@ def canon(v):
 def call(f):
     try:
         return canon(f())
-    except Exception:  # noqa: BLE001
+    except BaseException:  # noqa: BLE001 -- scripted faults include BaseException-only ones
         return "exc"
 
 
@@ -325,7 +395,9 @@ def valid(case):
     for f in case["fields"]:
         if (f["cmp"], f["eq"], f.get("order", "unset")) not in EQARGS:
             return False
-        if f["sameObj"] and f["hashDiffers"]:
+        if f["sameObj"] and (f["hashDiffers"] or f.get("reprEq", True) is False):
+            return False
+        if f.get("fault", "none") not in ("none", "eqRaises", "keyRaises"):
             return False
     return True
 
@@ -519,13 +591,15 @@ def observe(case):
     xv, yv = {}, {}
     for i, f in enumerate(fs):
         n = f["name"]
-        xv[n] = S(n, f["raw"], f["keyed"], f.get("neRaw", "T"), f.get("neKeyed", "T"), 1000 + 16 * i,
-                  f.get("orderKeyed", "T"))
+        cls = SU if f.get("unhashable") else S
+        xv[n] = cls(n, f["raw"], f["keyed"], f.get("neRaw", "T"), f.get("neKeyed", "T"), 1000 + 16 * i,
+                    f.get("orderKeyed", "T"), "r")
         if f["sameObj"]:
             yv[n] = xv[n]
         else:
-            yv[n] = S(n, f["raw"], f["keyed"], f.get("neRaw", "T"), f.get("neKeyed", "T"),
-                      (2000 if f.get("hashDiffers") else 1000) + 16 * i, f.get("orderKeyed", "T"))
+            yv[n] = cls(n, f["raw"], f["keyed"], f.get("neRaw", "T"), f.get("neKeyed", "T"),
+                        (2000 if f.get("hashDiffers") else 1000) + 16 * i, f.get("orderKeyed", "T"),
+                        "r" if f.get("reprEq", True) else "r'")
     # values held before a re-assignment: never to be compared, hash codes of their own
     x0, y0 = dict(xv), dict(yv)
     for i, n in enumerate(hist.get("reassignedX", [])):
@@ -566,22 +640,104 @@ def observe(case):
                 setattr(y, n, yv[n])
     except Exception:  # noqa: BLE001 -- stale values stay: they are compared and show up in the trace
         pass
-    del LOG[:]
-    eq_direct = call(lambda: C.__eq__(x, y))
-    trace = list(LOG)
-    del LOG[:]
-    ne_direct = call(lambda: C.__ne__(x, y))
-    ne_trace = list(LOG)
-    obs = {
-        "eqDirect": eq_direct,
-        "neDirect": ne_direct,
-        "eqOp": call(lambda: x == y),
-        "neOp": call(lambda: x != y),
-        "trace": trace,
-        "neTrace": ne_trace,
-    }
-    del LOG[:]
-    return obs
+    # ---- faults of the first round (installed after the history: hashing must not trip over them)
+    for f in fs:
+        kind = f.get("fault", "none")
+        if kind == "none":
+            continue
+        exc = EXC_KINDS[f.get("excKind", "user")]
+        for v in (xv[f["name"]], yv[f["name"]]):
+            if kind == "eqRaises":
+                v.fault = v.k.fault = v.ok.fault = exc
+            else:
+                v.kfault = exc
+
+    def one_round():
+        del LOG[:]
+        eq_direct = call(lambda: C.__eq__(x, y))
+        trace = list(LOG)
+        del LOG[:]
+        ne_direct = call(lambda: C.__ne__(x, y))
+        ne_trace = list(LOG)
+        r = {"eqDirect": eq_direct, "neDirect": ne_direct, "eqOp": call(lambda: x == y),
+             "neOp": call(lambda: x != y), "trace": trace, "neTrace": ne_trace}
+        del LOG[:]
+        return r
+
+    residue = []
+    before = (_tl_snapshot(), _inst_state(x), _inst_state(y))
+    first = one_round()
+    residue += ["first:" + r for r in _residue(before, (_tl_snapshot(), _inst_state(x), _inst_state(y)))]
+    # ---- every fault gone: the SAME pair, same operand order, compared again
+    for v in list(xv.values()) + list(yv.values()):
+        v.fault = v.kfault = v.k.fault = v.ok.fault = None
+    before = (_tl_snapshot(), _inst_state(x), _inst_state(y))
+    again = one_round()
+    residue += ["again:" + r for r in _residue(before, (_tl_snapshot(), _inst_state(x), _inst_state(y)))]
+    return {"first": first, "again": again, "residue": sorted(set(residue))}
+
+
+# ---- what a comparison may leave behind: thread-local state of the attr modules, the operands themselves
+
+_TL = {"objs": None, "age": 0}
+
+
+def _thread_locals():
+    _TL["age"] += 1
+    if _TL["objs"] is None or _TL["age"] % 400 == 0:
+        found = []
+        for mname, mod in list(sys.modules.items()):
+            if mod is not None and (mname in ("attr", "attrs") or mname.startswith(("attr.", "attrs."))):
+                for k, v in list(vars(mod).items()):
+                    if isinstance(v, threading.local):
+                        found.append((f"{mname}.{k}", v))
+        _TL["objs"] = found
+    return _TL["objs"]
+
+
+def _tl_snapshot():
+    snap = {}
+    for name, loc in _thread_locals():
+        for a, val in list(vars(loc).items()):
+            if isinstance(val, (set, frozenset, list, tuple, dict)):
+                snap[f"{name}.{a}"] = ("container", len(val))
+            else:
+                snap[f"{name}.{a}"] = ("value", id(val), val)     # keep it alive so the id stays meaningful
+    return snap
+
+
+def _inst_state(o):
+    st = []
+    d = getattr(o, "__dict__", None)
+    if isinstance(d, dict):
+        st += [(k, id(v)) for k, v in d.items()]
+    for klass in type(o).__mro__:
+        sl = klass.__dict__.get("__slots__", ())
+        for n in ((sl,) if isinstance(sl, str) else sl):
+            if n in ("__weakref__", "__dict__"):
+                continue
+            try:
+                st.append((n, id(object.__getattribute__(o, n))))
+            except AttributeError:
+                st.append((n, None))
+    return sorted(st, key=lambda t: t[0])
+
+
+def _residue(before, after):
+    out = []
+    tl0, tl1 = before[0], after[0]
+    for k, v in tl1.items():
+        old = tl0.get(k)
+        if v[0] == "container":
+            if v[1] > (old[1] if old and old[0] == "container" else 0):
+                out.append("thread-local " + k)
+        elif old is None or old[:2] != v[:2]:
+            out.append("thread-local " + k)
+    if before[1] != after[1]:
+        out.append("left operand changed")
+    if before[2] != after[2]:
+        out.append("right operand changed")
+    return out
 
 
 def _participates(f):
@@ -601,7 +757,10 @@ def dist(case, obs):
         "rhs": case["rhs"],
         "api": cfg.get("api"),
         "slots": cfg.get("slots"),
-        "eqDirect": obs.get("eqDirect") if isinstance(obs, dict) else "?",
+        "eqDirect": (obs.get("again") or {}).get("eqDirect") if isinstance(obs, dict) else "?",
+        "first_eqDirect": (obs.get("first") or {}).get("eqDirect") if isinstance(obs, dict) else "?",
+        "faults": "+".join(sorted(f"{f['fault']}/{f.get('excKind')}" for f in case["fields"] if f.get("fault", "none") != "none")) or "-",
+        "unhashable_values": sum(1 for f in case["fields"] if f.get("unhashable")),
         "keys": sum(1 for f in case["fields"] if "key" in (f["cmp"], f["eq"])),
         "root": cfg.get("root"),
         "base_mode": cfg.get("base_mode"),
@@ -715,6 +874,12 @@ def _dress(rng, f):
     f["hash"] = rng.choice(["unset", "unset", "t", "f"])
     f["hashDiffers"] = (not f["sameObj"]) and rng.random() < 0.4
     f["orderKeyed"] = rng.choice(OUTCOMES)
+    f["fault"] = "none"
+    if rng.random() < 0.12:
+        f["fault"] = rng.choice(["eqRaises", "eqRaises", "keyRaises"])
+        f["excKind"] = rng.choice(list(EXC_KINDS))
+    f["unhashable"] = rng.random() < 0.3
+    f["reprEq"] = f["sameObj"] or rng.random() < 0.5
     f["neRaw"] = rng.choice(OUTCOMES)
     f["neKeyed"] = rng.choice(OUTCOMES)
     return f
@@ -808,7 +973,8 @@ def shrink(case):
             for n in hist[k]:
                 yield from _emit(dict(base, hist=dict(hist, **{k: [m for m in hist[k] if m != n]})))
     for i, f in enumerate(fs):
-        for k, v in (("cmp", "unset"), ("eq", "unset"), ("order", "unset"), ("orderKeyed", "T"), ("sameObj", False), ("raw", "T"), ("keyed", "T"),
+        for k, v in (("fault", "none"), ("excKind", "user"), ("unhashable", False), ("reprEq", True),
+                     ("cmp", "unset"), ("eq", "unset"), ("order", "unset"), ("orderKeyed", "T"), ("sameObj", False), ("raw", "T"), ("keyed", "T"),
                      ("hash", "unset"), ("hashDiffers", False), ("neRaw", "T"), ("neKeyed", "T")):
             if f.get(k) != v:
                 yield from _emit(dict(base, fields=fs[:i] + [dict(f, **{k: v})] + fs[i + 1:]))
@@ -828,12 +994,16 @@ def neighbours(case, rng):
 LEVEL_TEXT = ("Lean theorems over arbitrary field lists, arbitrary ancestor chains and arbitrary hashing histories "
               "(C03_eq_iff, C03_ne_negation, C03_other_class_notimpl, C03_other_class_identity, C03_nonparticipating_irrelevant, "
               "C03_history_irrelevant, C03_order_key_irrelevant (a per-field order= key never is an eq key), "
-              "C03_class_identity_not_equality (metaclass ==/!= between classes never matters), C03_short_circuit, "
+              "C03_class_identity_not_equality (metaclass ==/!= between classes never matters), C03_fault_propagates / "
+              "C03_fault_reached_iff (an exception from a field's == or key function comes out of __eq__, __ne__, == and != "
+              "exactly when every participating field before it is fault-free and truthy), C03_later_comparison_on_its_own, "
+              "C03_short_circuit, "
               "C03_uses_eq_not_identity, lookupEq_gen/lookupNe_gen (the generated "
               "pair shadows every inherited or hand-written __eq__/__ne__), C03_model_meets_spec) about an executable model of "
               "_make_eq_script/__ne__/add_eq/_determine_attrib_eq_order and of the decision whether equality is generated; the "
               "model is tied to /repo by a differential correspondence over scripted ==/!=/hash outcomes x operand kinds x class "
-              "facts (per-field order= arguments with an order key of their own, metaclasses with scripted class ==/!=, hand-written methods in the class body, builtin / mixin / attrs ancestors with their own __eq__/__ne__, "
+              "facts and faults (first-round exceptions from == / key functions of 5 types, then the same pair compared again; "
+              "residue in thread-locals and on the operands; unhashable key results with independently scripted reprs; per-field order= arguments with an order key of their own, metaclasses with scripted class ==/!=, hand-written methods in the class body, builtin / mixin / attrs ancestors with their own __eq__/__ne__, "
               "subclass and foreign operands with or without methods) x hashing histories (cache_hash, hash() before the "
               "comparison, fields re-assigned after hashing) x class configurations (api incl. make_class, slots, frozen, "
               "class-level eq/order/cmp, inheritance split). CPython's MRO lookup, object.__ne__ and ==/!= dispatch are "
